@@ -490,3 +490,25 @@ def mon_c07_evalfail(case, verdict, chk):
     if "panic" not in case and not res.get("returned"):
         chk.violation("C07:no-return-after-evaluation-failure", "the run neither returned nor failed within 25 s",
                       {"kind": "impl-counterexample", "case": slim(case), "dump": case.get("dump")})
+
+
+def mon_c09_sched(case, verdict, chk, points=None):
+    """a pure delay at a synchronisation point must not change the result of a workflow with a single result"""
+    funcs = {p["id"]: (p["file"].split("/")[-2], p["func"]) for p in (points or [])}
+    for sw in case.get("sweeps", []):
+        if sw.get("same"):
+            continue
+        res = sw.get("result", {})
+        pk, fn = funcs.get(sw["point"], ("?", "?"))
+        got = res.get("output_id") or res.get("err_class") or "no-return"
+        base = case.get("base_key", "").split(":")[0]
+        if base == "output" and got == "noMoreSteps":
+            fp = "C09:spurious-noMoreSteps:%s.%s" % (pk, fn)
+            what = ("a %d ms delay at %s (%s.%s) makes the run fail with 'no steps running...' although it returns %s without the delay"
+                    % (case.get("hold_ms", 0), sw["point"], pk, fn, case.get("base_key", "")[:60]))
+        else:
+            fp = "C09:result-changed:%s.%s:%s->%s" % (pk, fn, base, got)
+            what = "a %d ms delay at %s changes the result from %s to %s" % (case.get("hold_ms", 0), sw["point"], case.get("base_key", "")[:60], got)
+        chk.violation(fp, what, {"kind": "impl-counterexample", "case": {k: v for k, v in case.items() if k not in ("sweeps", "wf", "log")},
+                                 "schedule_plan": [{"id": sw["point"], "nth": sw["nth"], "delay_ms": case.get("hold_ms")}],
+                                 "delayed_result": res, "delayed_log": sw.get("log")})
